@@ -4,6 +4,7 @@
 // evidence, and the C06 integer observations.
 // Protocol and encodings of <ty> / <dval>: see /verif/coq/theories/Extract/Driver_typed.v.
 //   pt <cfg> <src> <ty> <hex>        seed.deserialize(&mut de) + de.end()      src: s | b | r<k> | rx<seed>
+//   pm <cfg> <src> <ty> <hex>        as pt, errors followed by the hex of the message text (implementation-only comparisons)
 //   dv <cfg> <src> <shape> <hex>     the derive-based type number <shape> on the same input, printed as a dval
 //   rt <cfg> <ty> <dval>             serialize (6 writer/formatter pairs) then read back (str, slice, readers)
 //   fv <cfg> <ty> <hex>              from_str::<Value>(text), then the seed on the Value (owned and by reference)
@@ -1126,10 +1127,17 @@ fn dispatch(f: &[&str]) -> String {
         return "BADCASE".into();
     }
     match f[0] {
-        "pt" if f.len() == 5 => {
+        "pt" | "pm" if f.len() == 5 => {
             let ty = match parse_ty(f[3]) { Some(t) => t, None => return "BADCASE".into() };
             let data = match unhex(f[4]) { Some(d) => d, None => return "BADCASE".into() };
             match run_src(f[1], f[2], ty, &data) {
+                // pm: additionally the message text (without the position suffix), for source-vs-source comparison
+                Some(Err(e)) if f[0] == "pm" => {
+                    let full = e.to_string();
+                    let suffix = format!(" at line {} column {}", e.line(), e.column());
+                    let msg = full.strip_suffix(&suffix).unwrap_or(&full);
+                    format!("{} {}", show_terr(&e), hex(msg.as_bytes()))
+                }
                 Some(r) => show_tres(r),
                 None => "SKIP".into(),
             }
